@@ -5,6 +5,7 @@ import Rare.Proofs.C02RxIdx
 import Rare.Proofs.C02RxPosix
 import Rare.Proofs.C02RxRep
 import Rare.Proofs.C02Batch
+import Rare.Proofs.C02Hist
 import Rare.Model.C02RxParse
 import Rare.Model.C02Plan
 import Rare.Props.C01
@@ -793,5 +794,153 @@ example : (match filterAll false true false ⟨[], [], [], []⟩ 2
       [⟨lit "IN", 1, lit "a", [0, 1], lit "a"⟩, ⟨lit "IN", 3, lit "bc", [0, 2], lit "bc"⟩, ⟨lit "IN", 4, lit "d", [0, 1], lit "d"⟩] 0 with
     | .ok segs => render segs
     | .error _ => []) = lit "IN 1: a\nIN 3: bc\n" := by decide +kernel
+
+/-! ## Round 4d: ONE context object over a HISTORY of matches
+
+The extractor does not build a context per match.  Every worker goroutine owns one
+`SliceSpaceExpressionContext`; `processLineSync` re-points it at each matched line; all sources go through the
+same workers and line numbers restart at 1 in every source.  "Capture values equal to those of the leftmost
+match on THAT line" is therefore a statement about an object with a past: `{N}`, `{name}`, `{@}`, `{src}`,
+`{line}` must be functions of the CURRENT match only. -/
+
+/-- **The worker's loop is the map of a context-free function.**  One worker (`histWorker`: a context created
+once with the name table, then `processLineSync` for every line it is handed, expression `{k₁}|{k₂}|…` over
+arbitrary keys – decimal group numbers, group names, `@`, `src`, `line`) produces, for EVERY history `hs` – any
+sources in any order, equal or restarting line numbers, unmatched lines in between, the same match again –
+exactly what the context-free `captureOf` gives line by line (same panics too). -/
+theorem capture_history_is_map (keys : List Bytes) (nt : List (Bytes × Int)) (hs : List LineHit) :
+    histWorker keys nt hs = hs.mapM (captureOf keys nt) :=
+  histWorker_eq_mapM keys nt hs
+
+/-- Pointwise: the `Extracted` at position `i` of a history is determined by the line at position `i` alone. -/
+theorem capture_is_function_of_current_match (keys : List Bytes) (nt : List (Bytes × Int)) (hs : List LineHit)
+    (outs : List (Option KeyAns)) (hrun : histWorker keys nt hs = .ok outs) :
+    outs.length = hs.length ∧
+    ∀ (i : Nat) (x : LineHit), hs[i]? = some x → ∃ o, outs[i]? = some o ∧ captureOf keys nt x = .ok o := by
+  rw [capture_history_is_map] at hrun
+  exact C16.mapM_ok_pointwise _ hs outs hrun
+
+/-- The state a context is in does not matter: from ANY context `c` (whatever line, indices, source and line
+number an earlier match – or nobody – left in it) `processLineSync` extracts what a context built from the
+match alone would; only the name table, set at construction and never again, is kept. -/
+theorem capture_context_state_is_irrelevant (keys : List Bytes) (c : MatchCtx) (h : LineHit) :
+    (histLine keys c h).map (·.2) = captureOf keys c.names h ∧
+    ∀ c' o, histLine keys c h = .ok (c', o) → c'.names = c.names := by
+  refine ⟨?_, fun c' o hp => histLine_names keys c c' h o hp⟩
+  rw [histLine_eq]
+  cases captureOf keys c.names h <;> rfl
+
+/-- What the capture keys read of a match: `{N}` is `GetMatch N` of (line, indices) – so, by `getMatch_spec`, the
+text of group N of THIS line's match –, `{@}` is `array` of (line, indices), `{src}` and `{line}` are the source
+and the number the line came with.  Nothing else enters. -/
+theorem capture_keys_read_match_only (nt : List (Bytes × Int)) (h : LineHit) :
+    (∀ k i, atoi k = some i → captureKey nt h k = (getMatch h.line h.indices i).map .val) ∧
+    captureKey nt h (ascii "@") = (array h.line h.indices).map .val ∧
+    captureKey nt h (ascii "src") = .ok (.val h.source) ∧
+    captureKey nt h (ascii "line") = .ok (.val (itoa h.lineNum)) := by
+  have a1 : atoi (ascii "@") = none := by decide +kernel
+  have a2 : atoi (ascii "src") = none := by decide +kernel
+  have a3 : atoi (ascii "line") = none := by decide +kernel
+  have n1 : ascii "@" ≠ ascii "src" ∧ ascii "@" ≠ ascii "line" ∧ ascii "@" ≠ ascii "." ∧ ascii "@" ≠ ascii "#" ∧
+      ascii "@" ≠ ascii ".#" ∧ ascii "@" ≠ ascii "#." := by decide +kernel
+  have n2 : ascii "line" ≠ ascii "src" := by decide +kernel
+  refine ⟨?_, ?_, ?_, ?_⟩
+  · intro k i hk
+    simp only [captureKey, MatchCtx.keyVal, hk]
+  · simp only [captureKey, MatchCtx.keyVal, a1, getKey, n1.1, n1.2.1, n1.2.2.1, n1.2.2.2.1, n1.2.2.2.2.1,
+      n1.2.2.2.2.2, if_false, or_self, if_true]
+  · simp only [captureKey, MatchCtx.keyVal, a2, getKey, if_true]
+  · simp only [captureKey, MatchCtx.keyVal, a3, getKey, n2, if_false, if_true]
+
+/-- the history the seeded change `C02-array-memo-linenum` gets wrong, in the model: two one-line files through
+one worker (`(\w+)=(\d+)` on `alpha=1` and `beta=2`, both line 1 of their source), an unmatched line, and the
+first match again – every match reports ITS OWN groups for `{@}`, and the same match the same text again -/
+theorem capture_history_witness :
+    (histWorker [lit "src", lit "line", lit "@", lit "1"] []
+      [⟨lit "a.log", 1, [0, 7, 0, 5, 6, 7], lit "alpha=1"⟩, ⟨lit "b.log", 1, [0, 6, 0, 4, 5, 6], lit "beta=2"⟩,
+       ⟨lit "c.log", 1, [], lit "zz"⟩, ⟨lit "a.log", 1, [0, 7, 0, 5, 6, 7], lit "alpha=1"⟩]).toOption
+      = some [some (.val (lit "a.log|1|alpha" ++ [0] ++ lit "1|alpha")),
+              some (.val (lit "b.log|1|beta" ++ [0] ++ lit "2|beta")), none,
+              some (.val (lit "a.log|1|alpha" ++ [0] ++ lit "1|alpha"))] := by
+  decide +kernel
+
+/-- **The context's fields, their writers and their readers ARE the source's** (regenerated from
+pkg/extractor/sliceSpaceExpressionContext.go and extractor.go on every run, `Gen.C02.ctx*`).  The struct has
+exactly the five fields of `MatchCtx`; `processLineSync` binds the worker's context, assigns exactly `linePtr`,
+`indices`, `source`, `lineNum` (= `MatchCtx.load`) and only then hands the context to `IgnoreMatch` / `BuildKey`;
+the only constructor site sets `nameTable` (= `MatchCtx.fresh`), nothing else in the package assigns such a
+field; NO method of the context writes a field, takes its address, hands a map/slice field on or lets the
+receiver escape; `GetMatch`, `GetKey` and `array` – everything `{N}`, `{name}`, `{@}`, `{src}`, `{line}` run
+through – read no field but those four and the name table.  A memo of the joined groups, a cache keyed by line
+number, a lazily filled field: any state a method could carry from one match to the next changes these lists. -/
+theorem capture_context_is_source :
+    Gen.C02.ctxFields = [("linePtr", "string"), ("indices", "[]int"), ("nameTable", "map[string]int"),
+      ("source", "string"), ("lineNum", "uint64")] ∧
+    Gen.C02.ctxLoadEvents = [("bind", "expContext", "s.context"), ("set", "linePtr", "lineStringPtr"),
+      ("set", "indices", "matches"), ("set", "source", "source"), ("set", "lineNum", "lineNum"),
+      ("use", "s.ignore.IgnoreMatch", ""), ("use", "s.keyBuilder.BuildKey", "")] ∧
+    loadSetFields Gen.C02.ctxLoadEvents = ["linePtr", "indices", "source", "lineNum"] ∧
+    setsBeforeUses Gen.C02.ctxLoadEvents = true ∧
+    Gen.C02.ctxLiterals = ["asyncWorker:nameTable"] ∧ Gen.C02.ctxFieldSetsElsewhere = [] ∧
+    (Gen.C02.ctxMethods.filter fun m => captureMethods.contains m.1) =
+      [("GetMatch", ["indices", "linePtr"], [], [], []),
+       ("GetKey", ["source", "lineNum", "nameTable"], [], ["json", "array", "GetMatch"], []),
+       ("array", ["indices"], [], ["GetMatch"], [])] ∧
+    methodWrites Gen.C02.ctxMethods = [] ∧
+    (Gen.C02.ctxMethods.all fun m => m.2.2.2.2.isEmpty) = true ∧
+    (∀ f ∈ methodReadsOf captureMethods Gen.C02.ctxMethods,
+      f ∈ loadSetFields Gen.C02.ctxLoadEvents ∨ f ∈ ["nameTable"]) ∧
+    Gen.C02.arrayOutline =
+      ["varsbstrings.Builder", "for i:=1;i<len(s.indices)/2;i++{", "val:=s.GetMatch(i)", "if i>1{",
+       "sb.WriteRune(expressions.ArraySeparator)", "}", "sb.WriteString(val)", "}", "returnsb.String()"] := by
+  decide
+
+/-- **History independence of the capture values from the source's own read/write sets** (C16's frame argument,
+`C16.frame`, applied to the methods the capture keys run through).  Take the fields `processLineSync` assigns
+(`W`), the fields ANY method of the context may write (`MW`) and the fields `GetMatch` / `GetKey` / `array` read
+(`R`) as the translator found them in /repo.  Then for ANY function `view` of the object that reads only `R`,
+after ANY history of re-pointings and method calls (`before`), a re-pointing at the match `m` and any number of
+further method calls on that match (`after` – the ignore expressions, the earlier keys of the same expression),
+`view` answers what it answers on the constructed object re-pointed once at `m`.  The only premise, `R ∩ MW = ∅`,
+is decided on the generated lists – with a memo field written by `array()` it is false. -/
+theorem capture_history_frame_source {V β : Type} (view : C16.Obj V → β)
+    (hv : C16.ReadsOnly (methodReadsOf captureMethods Gen.C02.ctxMethods) view)
+    (o₀ : C16.Obj V) (before : List (C16.ObjStep V)) (m : C16.Obj V) (after : List (C16.Obj V)) :
+    view ((after.map C16.ObjStep.method).foldl
+        (C16.ObjStep.apply (loadSetFields Gen.C02.ctxLoadEvents) (methodWrites Gen.C02.ctxMethods))
+        (C16.ObjStep.apply (loadSetFields Gen.C02.ctxLoadEvents) (methodWrites Gen.C02.ctxMethods)
+          (before.foldl (C16.ObjStep.apply (loadSetFields Gen.C02.ctxLoadEvents) (methodWrites Gen.C02.ctxMethods)) o₀)
+          (.repoint m)))
+      = view (C16.ObjStep.apply (loadSetFields Gen.C02.ctxLoadEvents) (methodWrites Gen.C02.ctxMethods) o₀ (.repoint m)) :=
+  C16.frame _ _ _ (by decide) view hv o₀ before m after
+
+/-- **This model of the context and C16's are one object** (`C16.Ctx`, `Model/C16Ctx.lean`, which the JSON views
+`{.}` `{#}` `{.#}` are proved history-independent on): the same four assignments, the same constructor, and for
+every context and every key that is not a view – a decimal group number, `src`, `line`, `@`, a group name, an
+unknown name – the very bytes (or the panic) of C16's `GetMatch` / `GetKey`. -/
+theorem capture_models_agree_C16 :
+    (∀ (c : C16.Ctx) (h : C16.Hit), ofC16 (c.load h) = (ofC16 c).load (ofC16Hit h)) ∧
+    (∀ nt, ofC16 (C16.Ctx.fresh nt) = MatchCtx.fresh nt) ∧
+    (∀ (c : C16.Ctx) (key : Bytes) (i : Int), atoi key = some i →
+      (ofC16 c).keyVal key = (c.getMatch i).map KeyAns.val) ∧
+    (∀ (c : C16.Ctx) (key : Bytes), atoi key = none → C16.viewFlags key = none →
+      (ofC16 c).keyVal key = (c.getKey key).map KeyAns.val) :=
+  ⟨ofC16_load, ofC16_fresh, keyVal_decimal_eq_C16, keyVal_eq_C16⟩
+
+/-! non-vacuity of the round-4d theorems -/
+/-- a history with two sources at the same line number, a named group, `{0}` and an unknown name -/
+example : (histWorker [lit "k", lit "0", lit "@", lit "nope"] [(lit "k", 1)]
+      [⟨lit "a.log", 7, [0, 3, 0, 1, 2, 3], lit "x=1"⟩, ⟨lit "b.log", 7, [0, 3, 0, 1, 2, 3], lit "y=2"⟩]).toOption
+      = some [some (.val (lit "x|x=1|x" ++ [0] ++ lit "1|<NAME>")), some (.val (lit "y|y=2|y" ++ [0] ++ lit "2|<NAME>"))] := by
+  decide +kernel
+/-- an empty key drops the line (group 2 did not participate), a view key makes the model decline -/
+example : (captureOf [lit "2"] [] ⟨lit "f", 1, [0, 1, 0, 1, -1, -1], lit "a"⟩).toOption = some none ∧
+    (captureOf [lit "1", lit "."] [] ⟨lit "f", 1, [0, 1, 0, 1], lit "a"⟩).toOption = some (some .json) := by
+  decide +kernel
+/-- a view that reads what the source's capture methods read: `ReadsOnly` is satisfiable and not trivial -/
+example : C16.ReadsOnly (methodReadsOf captureMethods Gen.C02.ctxMethods)
+    (fun o : C16.Obj Nat => o "indices" + o "linePtr" + o "lineNum") :=
+  fun o o' h => by simp [h "indices" (by decide), h "linePtr" (by decide), h "lineNum" (by decide)]
+example : atoi (lit "2") = some 2 ∧ atoi (lit "k") = none ∧ C16.viewFlags (lit "@") = none := by decide +kernel
 
 end Rare.C02
